@@ -113,6 +113,15 @@ def refusals(name):
         if kind == 'int':
             R.append(('set-from-text-out-of-range', 0, ('setopt', nm, b'99999999999999999999'), None))
             R.append(('set-from-text-trailing-garbage', 0, ('setopt', nm, b'12z'), None))
+            R.append(('set-from-text-empty', 0, ('setopt', nm, b''), None))
+        if kind == 'float':
+            # every way a float text is refused: not a numeral, out of range either way, the spellings strtod() knows besides numerals
+            for bad in (b'1e999', b'-1e999', b'1e-999', b'nan', b'NaN', b'inf', b'-infinity', b'+Inf', b'1.5x', b''):
+                R.append(('set-from-text-refused-float:%s' % bad.decode(), 0, ('setopt', nm, bad), None))
+                R.append(('bulk-set-refused-float:%s' % bad.decode(), 0, ('setmulti', nm, [b'3.5', bad] if lst else [bad]), None))
+        if kind == 'bool':
+            for bad in (b'2', b'tru', b'', b'yess'):
+                R.append(('set-from-text-refused-bool:%s' % bad.decode(), 0, ('setopt', nm, bad), None))
     R.append(('bulk-set-empty', 0, ('setmulti', nm, []), None))
     # pre-set veto (by-name setters of int / float / str carry the callback)
     if kind in ('int', 'float', 'str'):
